@@ -160,7 +160,9 @@ func fieldStoreOwners(r *core.Run, rule, rel, typeName, field string, allowed ma
 func c20(r *core.Run) {
 	r.Explanation = "Decided clause (narrow): atree error discipline of the container values — no error returned by an atree call in interpreter's array, dictionary, composite and storage-map code is dropped or overwritten before being tested; " +
 		"each reaches a panic (as ExternalError), a return or a named handler (e.g. the index-out-of-bounds conversion); " +
-		"(R2) every returning path of ArrayValue.Slice has created the atree range iterator (the upper-bound check); (R3) in the container Transfer methods atree's CopyNonRefSimple is unreachable when neither IsWithinSingleSlab() nor CanCopyNonRefSimple() holds."
+		"(R2) every returning path of ArrayValue.Slice has created the atree range iterator (the upper-bound check); (R3) in the container Transfer methods atree's CopyNonRefSimple is unreachable when neither IsWithinSingleSlab() nor CanCopyNonRefSimple() holds; " +
+		"(R4) the reviewed branch conditions and helpers of the size- and index-sensitive array operations are still present (decision census); " +
+		"(R5) ToInt of every big-integer value type (the conversion of an index to a Go int) is guarded by IsInt64 and never reads a magnitude (Uint64)."
 	r.NotDecided = "model equivalence of arrays and dictionaries over operation sequences; slab thresholds; persistence."
 	w := r.W
 	isAtree := func(o *types.Func) bool {
@@ -276,6 +278,20 @@ func c20(r *core.Run) {
 			"atree's CopyNonRefSimple is reachable for a container that is neither within a single slab nor reported copyable by atree: every copy/move of a large container of primitive elements fails with an external error")
 	}
 	r.Floor("R3.fastpath", 3)
+
+	// R4 decisions of the size- and index-sensitive array operations (DECISIONS): every reviewed branch condition and
+	// helper is still present (e.g. "count != expected size" of toConstantSized, the bounds tests of slice/insert/remove)
+	var afns []*ssa.Function
+	for _, name := range []string{"ToConstantSized", "ToVariableSized", "Slice", "Insert", "Remove", "RemoveFirst", "RemoveLast", "Get", "Set", "Concat", "Reverse", "FirstIndex", "Contains"} {
+		if fn := w.Fn("interpreter", "ArrayValue", name); fn != nil {
+			afns = append(afns, fn)
+		}
+	}
+	decisionCensus(r, "R4.decisions", "c20_array_decisions", afns, "an array operation no longer makes a decision / consults a helper it did on the reviewed tree")
+	r.Floor("R4.decisions", 8)
+
+	// R5 an index is converted to a Go int without wrapping: ToInt of the wide integer types tests IsInt64 before Int64
+	c20ToIntGuards(r)
 }
 
 func instrPos(in ssa.Instruction) token.Pos {
@@ -601,4 +617,41 @@ func orStr(a, b string) string {
 		return a
 	}
 	return b
+}
+
+// c20ToIntGuards: R5 — array indexing, insert and remove turn the index value into a Go int with NumberValue.ToInt. For
+// the big-integer value types this must fail for values outside int64 (IsInt64 guard with a panicking edge) and must not
+// take the low 64 bits of the magnitude (Uint64), which would wrap a huge index onto a valid element.
+func c20ToIntGuards(r *core.Run) {
+	const rule = "R5.toint"
+	w := r.W
+	n := 0
+	for _, fn := range w.SrcFuncsIn("interpreter") {
+		if fn.Parent() != nil || fn.Name() != "ToInt" || fn.Signature.Recv() == nil {
+			continue
+		}
+		usesBig := false
+		guarded, magnitude := false, false
+		for _, c := range core.Calls(fn, true) {
+			o := core.Callee(c)
+			if o == nil || o.Pkg() == nil || o.Pkg().Path() != "math/big" {
+				continue
+			}
+			usesBig = true
+			switch o.Name() {
+			case "IsInt64":
+				guarded = true
+			case "Uint64", "Bits", "Bytes":
+				magnitude = true
+			}
+		}
+		if !usesBig {
+			continue
+		}
+		n++
+		panics := len(core.Panics(fn, true)) > 0
+		r.Check(guarded && panics && !magnitude, rule, core.SSAKey(fn), fn.Pos(), "IsInt64 guard with a failing edge, no magnitude read",
+			"ToInt of a big-integer value converts without the IsInt64 guard (or reads the magnitude's low 64 bits): an index of 2^64 or more wraps onto a valid element instead of failing")
+	}
+	r.Floor(rule, 6)
 }
